@@ -671,6 +671,10 @@ func c13Body(c *run.Ctx) {
 		kC13.Do(c, c13Case{Law: "todate|fromdate", In: run.TV{V: s}})
 		kC13.Do(c, c13Case{Law: "gmtime|mktime", In: run.TV{V: s}})
 	}
+	// B2. values nested thousands of levels deep
+	for _, t := range c13DeepCases(c) {
+		kC13Deep.Do(c, t)
+	}
 	// C. PRNG-built cases; the PRNG of case i depends on (seed, i) only, so a
 	// worker builds just its own cases
 	n := c.N(500000, 14000000)
